@@ -85,6 +85,8 @@ type world struct {
 	uscID    map[int]uint64
 	denom    map[int]string
 	jobID    map[int]string
+	handed   map[int]string  // denom whose CURRENT admin the principal is (created by the other principal)
+	done     map[string]bool // preparations already made
 	sc2      uint64
 	nextNonc uint64
 	prepErr  string
@@ -166,7 +168,7 @@ func newWorld(kind string) *world {
 			gs[govtypes.ModuleName] = cdc.MustMarshalJSON(&gg)
 		}})
 	w := &world{e: e, gov: authtypes.NewModuleAddress(govtypes.ModuleName), xferID: map[int]uint64{}, uscID: map[int]uint64{},
-		denom: map[int]string{}, jobID: map[int]string{}, nextNonc: 1}
+		denom: map[int]string{}, jobID: map[int]string{}, nextNonc: 1, handed: map[int]string{}, done: map[string]bool{}}
 	for i := 0; i < 3; i++ {
 		w.eth = append(w.eth, ethKey("val-eth", i))
 		w.newEth = append(w.newEth, ethKey("val-eth-new", i))
@@ -181,7 +183,14 @@ func newWorld(kind string) *world {
 				w.prepErr = fmt.Sprint(r)
 			}
 		}()
-		must(e.Setup(func(ctx sdk.Context) error { return w.prep(ctx, kind) }))
+		must(e.Setup(func(ctx sdk.Context) error {
+			for _, k := range strings.Split(kind, "+") { // a two-message transaction needs the objects of both kinds
+				if err := w.prep(ctx, k); err != nil {
+					return err
+				}
+			}
+			return nil
+		}))
 	}()
 	_, err = e.DeliverBlock(nil)
 	must(err)
@@ -232,6 +241,12 @@ func (w *world) prep(ctx sdk.Context, kind string) error {
 	must(err)
 	contract, err := skywaytypes.NewEthAddress(bridgeERC20)
 	must(err)
+	once := func(name string, f func()) {
+		if !w.done[name] {
+			w.done[name] = true
+			f()
+		}
+	}
 	pool := func() {
 		w.both(func(p int) {
 			id, err := a.SkywayKeeper.AddToOutgoingPool(ctx, w.addr(p), *dest, sdk.NewInt64Coin(env.BondDenom, 1000), chain)
@@ -262,65 +277,114 @@ func (w *world) prep(ctx sdk.Context, kind string) error {
 			}
 		})
 	}
+	// ownership handed over: factory/<X>/sh was created (and 5 minted) by X, who then gave the admin role to the other
+	// principal p (MsgChangeAdmin); p minted 5 more to itself. w.handed[p] is the denom p is the CURRENT admin of.
+	handed := func() {
+		srv := tfkeeper.NewMsgServerImpl(a.TokenFactoryKeeper)
+		w.both(func(p int) {
+			x := pA + pB - p
+			mdx := valsettypes.MsgMetadata{Creator: w.addr(x).String(), Signers: []string{w.addr(x).String()}}
+			mdp := valsettypes.MsgMetadata{Creator: w.addr(p).String(), Signers: []string{w.addr(p).String()}}
+			r, err := srv.CreateDenom(ctx, &tftypes.MsgCreateDenom{Subdenom: "sh", Metadata: mdx})
+			must(err)
+			_, err = srv.Mint(ctx, &tftypes.MsgMint{Amount: sdk.NewInt64Coin(r.NewTokenDenom, 5), Metadata: mdx})
+			must(err)
+			_, err = srv.ChangeAdmin(ctx, &tftypes.MsgChangeAdmin{Denom: r.NewTokenDenom, NewAdmin: w.addr(p).String(), Metadata: mdx})
+			must(err)
+			_, err = srv.Mint(ctx, &tftypes.MsgMint{Amount: sdk.NewInt64Coin(r.NewTokenDenom, 5), Metadata: mdp})
+			must(err)
+			w.handed[p] = r.NewTokenDenom
+		})
+	}
 	switch kind {
 	case "SkSendToRemote":
-		pool() // B already has a pending transfer; the delivered message adds one for the creator
+		once("pool", pool) // B already has a pending transfer; the delivered message adds one for the creator
 	case "SkCancelSendToRemote":
-		pool()
+		once("pool", pool)
 	case "SkConfirmBatch", "SkConfirmBatchForged", "SkEstimateBatchGas":
-		batch()
+		if w.done["pool"] {
+			panic("the batch must be built before the pool transfers")
+		}
+		once("batch", batch)
 	case "SkBatchSendToRemoteClaim":
-		batch()
+		if w.done["pool"] {
+			panic("the batch must be built before the pool transfers")
+		}
+		once("batch", batch)
 	case "SkSetERC20ToTokenDenom":
-		denoms(0)
+		once("denoms", func() { denoms(5) })
+	case "SkSetERC20ToTokenDenomHanded", "TfMintHanded", "TfBurnHanded", "TfChangeAdminHanded", "TfSetDenomMetadataHanded":
+		once("handed", handed)
 	case "CoAddSignatures", "CoAddGasEstimates", "CoSetPublicAccessData", "CoSetErrorData":
+		if w.done["slc"] {
+			break
+		}
+		w.done["slc"] = true
 		id, err := a.EvmKeeper.AddSmartContractExecutionToConsensus(ctx, chain, w.compass, &evmtypes.SubmitLogicCall{
 			HexContractAddress: "0x00000000000000000000000000000000000000cc", Abi: []byte(slcABI), Payload: common.FromHex("c2985578"),
 			Deadline: ctx.BlockTime().Add(time.Hour).Unix(), SenderAddress: w.v2().Addr.Bytes()})
 		must(err)
 		w.slcID = id
 	case "CoAddEvidence":
+		if w.done["ref"] {
+			break
+		}
+		w.done["ref"] = true
 		id, err := a.ConsensusKeeper.PutMessageInQueue(ctx, refQueue, &evmtypes.ReferenceBlockAttestation{FromBlockTime: ctx.BlockTime().UTC()},
 			&cq.PutOptions{RequireSignatures: false, PublicAccessData: []byte{1}})
 		must(err)
 		w.refID = id
 	case "EvRemoveSmartContractDeployment":
+		if w.done["sc2"] {
+			break
+		}
+		w.done["sc2"] = true
 		// governance proposed a new compass: a deployment record (in flight) and an upload message exist
 		sc2, err := a.EvmKeeper.SaveNewSmartContract(ctx, compassABI, append(append([]byte{}, compassBytecode...), 0x00))
 		must(err)
 		must(a.EvmKeeper.SetAsCompassContract(ctx, sc2))
 		w.sc2 = sc2.Id
 	case "EvRemoveUserSmartContract", "EvDeployUserSmartContract", "EvUploadUserSmartContract":
-		w.both(func(p int) {
+		once("usc", func() {
+			w.both(func(p int) {
 			id, err := a.EvmKeeper.SaveUserSmartContract(ctx, w.valoper(p).String(), &evmtypes.UserSmartContract{Title: fmt.Sprintf("c%d", p), AbiJson: "[]", Bytecode: "0x6001600255", ConstructorInput: "0x01"})
 			must(err)
 			w.uscID[p] = id
+		})
 		})
 	case "PaRegisterLightNodeClient":
 		// both principals bought a licence (the module holds the funds); set-up writes the records directly because
 		// CreateLightNodeClientLicense only serves addresses that have no account yet
 		coin := sdk.NewInt64Coin(env.BondDenom, 1_000_000)
+		once("lic", func() {
 		w.both(func(p int) {
 			must(a.BankKeeper.SendCoinsFromAccountToModule(ctx, w.funderLN().Addr, palomatypes.ModuleName, sdk.NewCoins(coin)))
 			must(a.PalomaKeeper.SetLightNodeClientLicense(ctx, w.addr(p).String(), &palomatypes.LightNodeClientLicense{ClientAddress: w.addr(p).String(), Amount: coin, VestingMonths: 12}))
 		})
+		})
 	case "PaAuthLightNodeClient":
+		once("cli", func() {
 		w.both(func(p int) {
 			must(a.PalomaKeeper.SetLightNodeClient(ctx, w.addr(p).String(), &palomatypes.LightNodeClient{ClientAddress: w.addr(p).String(), ActivatedAt: ctx.BlockTime(), LastAuthAt: ctx.BlockTime()}))
 		})
+		})
 	case "PaSetLegacyLightNodeClients":
 		// both principals are legacy light nodes: fee grantees of the light-node granter without a client record
+		once("legacy", func() {
 		w.both(func(p int) {
 			must(a.FeeGrantKeeper.GrantAllowance(ctx, w.granterLN().Addr, w.addr(p), &feegrant.BasicAllowance{SpendLimit: sdk.NewCoins(sdk.NewInt64Coin(env.BondDenom, 1_000_000))}))
 		})
+		})
 	case "TfMint", "TfBurn", "TfChangeAdmin", "TfSetDenomMetadata", "TfCreateDenom":
-		denoms(5)
+		once("denoms", func() { denoms(5) })
 	case "ScCreateJob", "ScExecuteJob":
+		once("jobs", func() {
 		w.both(func(p int) {
 			id := fmt.Sprintf("job-%d", p)
 			must(a.SchedulerKeeper.AddNewJob(ctx, &schedtypes.Job{ID: id, Owner: w.addr(p), Routing: schedtypes.Routing{ChainType: "evm", ChainReferenceID: chain},
 				Definition: []byte(jobDef), Payload: []byte(jobPayload)}))
 			w.jobID[p] = id
+		})
 		})
 	}
 	return nil
